@@ -41,6 +41,7 @@ def gen_cases(rng, tier: str) -> list[dict]:
             c["route"] = rng.choice(["LD", "FATL"])
             cases.append(c)
     for origin, pairs in (("compensating-magnitudes", common.compensating_products(rng, common.sizes(tier, 150, 1500))),
+                          ("vanishing-factor", common.vanishing_products(rng, common.sizes(tier, 150, 1500))),
                           ("near-special", common.near_special(rng, common.sizes(tier, 150, 1500)))):
         for e, pt in pairs:
             c = common.make_eval_case(origin, e, pt)
